@@ -52,3 +52,254 @@ Proof.
   destruct (commit_loop _ _ _ s) as [s1 nc].
   destruct (ok s1); reflexivity.
 Qed.
+
+(* ---------- counting over `others` only ---------- *)
+Lemma existsb_ext_in : forall {A} (f g : A -> bool) l, (forall x, In x l -> f x = g x) -> existsb f l = existsb g l.
+Proof.
+  intros A f g l; induction l as [|a l IH]; intros H; cbn; [reflexivity|].
+  rewrite (H a (or_introl eq_refl)), IH; [reflexivity|]. intros x Hx; apply H; right; exact Hx.
+Qed.
+
+Lemma filter_len_ext_in : forall {A} (f g : A -> bool) l,
+  (forall x, In x l -> f x = g x) -> length (filter f l) = length (filter g l).
+Proof. intros A f g l H. rewrite (filter_ext_in f g l H); reflexivity. Qed.
+
+Definition match_missing (n : node) : bool :=
+  existsb (fun x => match aget x (match_idx n) with None => true | Some _ => false end) (others n).
+
+Definition match_count (ci : N) (n : node) : N :=
+  1 + N.of_nat (length (filter (fun x => match aget x (match_idx n) with
+                                         | Some m => ci <=? m | None => false end) (others n))).
+
+(* nodes that the three majority computations cannot tell apart *)
+Definition same_votersview (a b : node) : Prop :=
+  others a = others b /\ log a = log b /\ term a = term b /\
+  (forall x, In x (others a) -> aget x (match_idx a) = aget x (match_idx b)) /\
+  (forall x, In x (others a) -> aget x (last_resp a) = aget x (last_resp b)).
+
+Lemma majority_others : forall cnt a b, others a = others b -> majority cnt a = majority cnt b.
+Proof. intros cnt a b H; unfold majority; rewrite H; reflexivity. Qed.
+
+Lemma match_missing_ext : forall a b, same_votersview a b -> match_missing a = match_missing b.
+Proof.
+  intros a b (Ho & _ & _ & Hm & _). unfold match_missing. rewrite <- Ho.
+  apply existsb_ext_in. intros x Hx. rewrite (Hm x Hx); reflexivity.
+Qed.
+
+Lemma match_count_ext : forall ci a b, same_votersview a b -> match_count ci a = match_count ci b.
+Proof.
+  intros ci a b (Ho & _ & _ & Hm & _). unfold match_count. rewrite <- Ho.
+  f_equal. f_equal. apply filter_len_ext_in. intros x Hx. rewrite (Hm x Hx); reflexivity.
+Qed.
+
+Lemma resp_missing_ext : forall a b, same_votersview a b -> resp_missing a = resp_missing b.
+Proof.
+  intros a b (Ho & _ & _ & _ & Hl). unfold resp_missing. rewrite <- Ho.
+  apply existsb_ext_in. intros x Hx. rewrite (Hl x Hx); reflexivity.
+Qed.
+
+Lemma fresh_count_ext : forall dl a b, same_votersview a b -> fresh_count dl a = fresh_count dl b.
+Proof.
+  intros dl a b (Ho & _ & _ & _ & Hl). unfold fresh_count. rewrite <- Ho.
+  f_equal. f_equal. apply filter_len_ext_in. intros x Hx. rewrite (Hl x Hx); reflexivity.
+Qed.
+
+(* commit_loop as a function of the node only *)
+Lemma commit_loop_unfold : forall f ci next s,
+  commit_loop (Datatypes.S f) ci next s =
+  if ci <? last_idx (log (nd s)) then
+    if match_missing (nd s) then (raise EXC_KEY s, next)
+    else if negb (majority (match_count (ci + 1) (nd s)) (nd s)) then (s, next)
+    else match get_entries (log (nd s)) (Some (ci + 1)) (Some 1) None with
+         | [] => commit_loop f (ci + 1) next s
+         | en :: _ => if eterm en =? term (nd s) then commit_loop f (ci + 1) (ci + 1) s
+                      else commit_loop f (ci + 1) next s
+         end
+  else (s, next).
+Proof. reflexivity. Qed.
+
+#[global] Opaque commit_loop.
+
+(* result: the index, and whether the loop raised KeyError *)
+Lemma commit_loop_ext : forall f ci next s s',
+  same_votersview (nd s) (nd s') ->
+  snd (commit_loop f ci next s) = snd (commit_loop f ci next s') /\
+  ((fst (commit_loop f ci next s) = s /\ fst (commit_loop f ci next s') = s') \/
+   (fst (commit_loop f ci next s) = raise EXC_KEY s /\ fst (commit_loop f ci next s') = raise EXC_KEY s')).
+Proof.
+  induction f as [|f IH]; intros ci next s s' Hv.
+  - Transparent commit_loop. cbn. Opaque commit_loop. auto.
+  - rewrite !commit_loop_unfold.
+    pose proof Hv as (Ho & Hl & Ht & _).
+    rewrite <- (match_missing_ext _ _ Hv), <- (match_count_ext _ _ _ Hv), <- (majority_others _ _ _ Ho), <- Hl, <- Ht.
+    destruct (ci <? last_idx (log (nd s))); [|cbn; auto].
+    destruct (match_missing (nd s)); [cbn; auto|].
+    destruct (negb _); [cbn; auto|].
+    destruct (get_entries _ _ _ _) as [|en r]; [apply IH; exact Hv|].
+    destruct (eterm en =? term (nd s)); apply IH; exact Hv.
+Qed.
+
+(* the value commit_loop returns: the start value, or an index a majority has matched *)
+Lemma commit_loop_result : forall f ci next s,
+  snd (commit_loop f ci next s) = next \/
+  (ci < snd (commit_loop f ci next s) <= last_idx (log (nd s)) /\
+   majority (match_count (snd (commit_loop f ci next s)) (nd s)) (nd s) = true).
+Proof.
+  induction f as [|f IH]; intros ci next s.
+  - Transparent commit_loop. cbn. Opaque commit_loop. auto.
+  - rewrite commit_loop_unfold.
+    destruct (ci <? last_idx (log (nd s))) eqn:E1; [|cbn; auto].
+    destruct (match_missing (nd s)); [cbn; auto|].
+    destruct (negb (majority (match_count (ci + 1) (nd s)) (nd s))) eqn:E2; [cbn; auto|].
+    apply negb_false_iff in E2. apply N.ltb_lt in E1.
+    assert (forall nx, (nx = next \/ nx = ci + 1) ->
+              snd (commit_loop f (ci + 1) nx s) = next \/
+              ci < snd (commit_loop f (ci + 1) nx s) <= last_idx (log (nd s)) /\
+              majority (match_count (snd (commit_loop f (ci + 1) nx s)) (nd s)) (nd s) = true) as HH.
+    { intros nx Hnx. destruct (IH (ci + 1) nx s) as [H | (H1 & H2)].
+      - rewrite H. destruct Hnx as [-> | ->]; [left; reflexivity|]. right. split; [lia | exact E2].
+      - right. split; [lia | exact H2]. }
+    destruct (get_entries _ _ _ _) as [|en r]; [apply HH; auto|].
+    destruct (eterm en =? term (nd s)); apply HH; auto.
+Qed.
+
+(* ---------- C20_fallback_step ---------- *)
+Lemma commit_phase_cases : forall s,
+  (fst (commit_phase s) = s) \/ (fst (commit_phase s) = raise EXC_KEY s).
+Proof.
+  intros s. unfold commit_phase.
+  destruct (commit_loop_ext (Datatypes.S (N.to_nat (last_idx (log (nd s)) - commit (nd s)))) (commit (nd s)) (commit (nd s)) s s) as (_ & [[H _] | [H _]]).
+  - repeat split; auto.
+  - left; exact H.
+  - right; exact H.
+Qed.
+
+Lemma store_commit_frame : forall nc s,
+  role (nd (store_commit nc s)) = role (nd s) /\ leader (nd (store_commit nc s)) = leader (nd s) /\
+  others (nd (store_commit nc s)) = others (nd s) /\ last_resp (nd (store_commit nc s)) = last_resp (nd s) /\
+  tnow (store_commit nc s) = tnow s /\ exc (store_commit nc s) = exc s /\ outs (store_commit nc s) = outs s /\
+  commit (nd (store_commit nc s)) = nc.
+Proof.
+  intros; unfold store_commit. destruct (commit (nd s) =? nc) eqn:E; cbn; repeat split; auto.
+  apply N.eqb_eq in E; exact E.
+Qed.
+
+Lemma fallback_phase_spec : forall e s,
+  (resp_missing (nd s) = true /\ fallback_phase e s = raise EXC_KEY (upd (fun n => n <| leader_commit := Some (commit n) |>) s)) \/
+  (resp_missing (nd s) = false /\ majority (fresh_count (tnow s - fallback (cf e))%Z (nd s)) (nd s) = true /\
+   fallback_phase e s = upd (fun n => n <| leader_commit := Some (commit n) |>) s) \/
+  (resp_missing (nd s) = false /\ majority (fresh_count (tnow s - fallback (cf e))%Z (nd s)) (nd s) = false /\
+   fallback_phase e s = upd (fun n => n <| leader := None |>)
+                          (set_role FOLLOWER (upd (fun n => n <| leader_commit := Some (commit n) |>) s))).
+Proof.
+  intros e s. unfold fallback_phase; cbv zeta.
+  change (resp_missing (nd (upd (fun n => n <| leader_commit := Some (commit n) |>) s))) with (resp_missing (nd s)).
+  change (tnow (upd (fun n => n <| leader_commit := Some (commit n) |>) s)) with (tnow s).
+  change (fresh_count (tnow s - fallback (cf e)) (nd (upd (fun n => n <| leader_commit := Some (commit n) |>) s)))
+    with (fresh_count (tnow s - fallback (cf e)) (nd s)).
+  change (majority (fresh_count (tnow s - fallback (cf e)) (nd s)) (nd (upd (fun n => n <| leader_commit := Some (commit n) |>) s)))
+    with (majority (fresh_count (tnow s - fallback (cf e)) (nd s)) (nd s)).
+  destruct (resp_missing (nd s)); [left; auto|].
+  destruct (majority _ _); cbn [negb]; [right; left; auto | right; right; auto].
+Qed.
+
+Lemma raise_neq : forall s, exc s = 0 -> s <> raise EXC_KEY s.
+Proof.
+  intros s H C. assert (exc s = exc (raise EXC_KEY s)) as C' by (rewrite <- C; reflexivity).
+  rewrite H in C'. discriminate C'.
+Qed.
+
+Lemma store_commit_counts : forall nc s,
+  resp_missing (nd (store_commit nc s)) = resp_missing (nd s) /\
+  (forall dl, fresh_count dl (nd (store_commit nc s)) = fresh_count dl (nd s)) /\
+  (forall k, majority k (nd (store_commit nc s)) = majority k (nd s)).
+Proof.
+  intros. destruct (store_commit_frame nc s) as (F1 & F2 & F3 & F4 & _).
+  split; [unfold resp_missing; rewrite F3, F4; reflexivity|].
+  split; [intros; unfold fresh_count; rewrite F3, F4; reflexivity|].
+  intros; apply majority_others; exact F3.
+Qed.
+
+Opaque fresh_count resp_missing match_missing majority.
+(* The local statement: a leader that runs the leader phase of a tick (no exception so far)
+   - raises KeyError iff an entry of others is missing from matchIndex (while indices remain to be
+     examined) or from lastResponseTime,
+   - otherwise ends as follower without leader iff the fresh responders (self included) are no majority *)
+Theorem C20_fallback_step_thm : forall e s,
+  role (nd s) = LEADER -> exc s = 0 ->
+  let s' := tick_leader e s in
+  let dl := (tnow s - fallback (cf e))%Z in
+  (exc s' = EXC_KEY /\ role (nd s') = LEADER /\
+     (resp_missing (nd s) = true \/ match_missing (nd s) = true)) \/
+  (exc s' = 0 /\ resp_missing (nd s) = false /\
+   (majority (fresh_count dl (nd s)) (nd s) = false ->
+      role (nd s') = FOLLOWER /\ leader (nd s') = None /\ In (Role LEADER FOLLOWER) (outs s')) /\
+   (majority (fresh_count dl (nd s)) (nd s) = true ->
+      role (nd s') = LEADER /\ leader (nd s') = leader (nd s) /\ outs s' = outs s)).
+Proof.
+  intros e s Hr Hx; cbv zeta. rewrite tick_leader_eq. rewrite Hr; cbn [N.eqb LEADER Pos.eqb].
+  destruct (commit_phase s) as [s1 nc] eqn:E.
+  pose proof (commit_phase_cases s) as H; rewrite E in H; cbn [fst] in H.
+  assert (fst (commit_phase s) = s1) as E1 by (rewrite E; reflexivity).
+  destruct H as [-> | ->].
+  - unfold ok; rewrite Hx; cbn [N.eqb].
+    destruct (store_commit_frame nc s) as (F1 & F2 & F3 & F4 & F5 & F6 & F7 & _).
+    destruct (store_commit_counts nc s) as (R1 & R2 & R3).
+    destruct (fallback_phase_spec e (store_commit nc s)) as [(A & ->) | [(A & B & ->) | (A & B & ->)]];
+      rewrite R1 in A; try rewrite R2, R3, F5 in B.
+    + left. cbn. rewrite F1. auto.
+    + right. cbn. rewrite F6, F1, F2, F7. split; [exact Hx|]. split; [exact A|].
+      split; [intros C; congruence | auto].
+    + right. unfold set_role; cbn. rewrite F1, Hr; cbn. rewrite F6, F7.
+      split; [exact Hx|]. split; [exact A|].
+      split; [intros _; repeat split; apply in_or_app; right; left; reflexivity | intros C; congruence].
+  - left. cbn. split; [reflexivity|]. split; [exact Hr|]. right.
+    (* the loop raised: so matchIndex misses a voter *)
+    unfold commit_phase in E1. rewrite commit_loop_unfold in E1.
+    destruct (commit (nd s) <? last_idx (log (nd s))).
+    + destruct (match_missing (nd s)) eqn:EM0; [reflexivity|]. exfalso.
+      assert (forall f ci nx, fst (commit_loop f ci nx s) <> raise EXC_KEY s) as HN.
+      { clear E E1. induction f as [|f IH]; intros ci nx.
+        - Transparent commit_loop. cbn [commit_loop fst]. Opaque commit_loop. apply raise_neq; exact Hx.
+        - rewrite commit_loop_unfold. destruct (ci <? _).
+          + rewrite EM0.
+            destruct (negb (majority (match_count (ci + 1) (nd s)) (nd s))); [cbn [fst]; apply raise_neq; exact Hx|].
+            destruct (get_entries _ _ _ _); [apply IH|]. destruct (_ =? _); apply IH.
+          + cbn [fst]; apply raise_neq; exact Hx. }
+      destruct (negb (majority (match_count (commit (nd s) + 1) (nd s)) (nd s))); [cbn [fst] in E1; exact (raise_neq s Hx E1)|].
+      destruct (get_entries _ _ _ _); [eapply HN; exact E1|]. destruct (_ =? _); eapply HN; exact E1.
+    + cbn [fst] in E1. exfalso; exact (raise_neq s Hx E1).
+Qed.
+Transparent fresh_count resp_missing match_missing majority.
+
+(* ---------- hasQuorum (syncobj.py:751-768) ---------- *)
+Definition own_count (n : node) : N := match self n with Some _ => 1 | None => 0 end.
+
+Definition connected_voters (n : node) : N :=
+  N.of_nat (length (filter (fun x => smem x (connected n)) (others n))).
+
+(* nodes = otherNodes; node_count = len(nodes); connected_count = len(nodes & connectedNodes);
+   both + 1 when selfNode is not None; connected_count > node_count / 2 (true division) *)
+Definition has_quorum (n : node) : bool :=
+  let node_count := N.of_nat (length (others n)) in
+  let connected_count := connected_voters n in
+  let (connected_count, node_count) :=
+    match self n with
+    | Some _ => (connected_count + 1, node_count + 1)
+    | None => (connected_count, node_count)
+    end in
+  node_count <? 2 * connected_count.
+
+Theorem C20_hasQuorum_iff_thm : forall n,
+  (has_quorum n = true <->
+   2 * (connected_voters n + own_count n) > N.of_nat (length (others n)) + own_count n) /\
+  (forall i, self n = Some i -> (has_quorum n = true <-> majority (1 + connected_voters n) n = true)) /\
+  (self n = None -> (has_quorum n = true <-> 2 * connected_voters n > N.of_nat (length (others n)))).
+Proof.
+  intros n. unfold has_quorum, own_count, majority; cbv zeta.
+  destruct (self n) as [i|].
+  - split; [rewrite N.ltb_lt; lia|]. split; [|discriminate].
+    intros j _. rewrite !N.ltb_lt. lia.
+  - split; [rewrite N.ltb_lt; lia|]. split; [discriminate|].
+    intros _. rewrite N.ltb_lt. lia.
+Qed.
